@@ -293,8 +293,14 @@ class Stats:
         self.inconclusive = 0
         self.covers = set()
         self.samples = []
+        self.counters = {}
+
+    def count(self, name, n=1):
+        self.counters[name] = self.counters.get(name, 0) + n
 
     def merge(self, o):
+        for k, v in o.counters.items():
+            self.count(k, v)
         self.paths += o.paths
         self.aborted += o.aborted
         self.queries += o.queries
